@@ -216,6 +216,24 @@ theorem enc_stream (e : C.E) (d : C.D) (hR : C.R e d) (x : Exp) (dir : Dir) (api
       rw [hrd1]
       simp only [hrs]
 
+/-! ### non-vacuity: a concrete cipher of the Vanilla header shape satisfies the coupling law -/
+/-- the shape of the Vanilla header cipher (wow_srp `vanilla_header`): c = (b xor key[i]) + previous -/
+def vanillaLike (key : List UInt8) : Cipher where
+  E := Nat × UInt8
+  D := Nat × UInt8
+  enc := fun (i, prev) b => let c := (b ^^^ key.getD (i % key.length) 0) + prev; ((i + 1, c), c)
+  dec := fun (i, prev) c => let b := (c - prev) ^^^ key.getD (i % key.length) 0; ((i + 1, c), b)
+  R := fun e d => e = d
+  step := by
+    intro e d b h
+    subst h
+    obtain ⟨i, prev⟩ := e
+    simp only
+    refine ⟨?_, trivial⟩
+    rw [UInt8.add_sub_cancel, UInt8.xor_assoc, UInt8.xor_self, UInt8.xor_zero]
+
+example : (decBytes (vanillaLike [7, 9, 200]) (0, 0) (encBytes (vanillaLike [7, 9, 200]) (0, 0) [1, 2, 3, 250]).2).2 = [1, 2, 3, 250] := by decide
+
 end WowVerif.Frame
 
 open WowVerif.Frame in
